@@ -805,7 +805,7 @@ def random_evqe_setup(rng, quick: bool = True, family: Optional[str] = None, pla
         max_evals=rng.choice([0, 10, 40, 90]) if "evals" in limit else None,
         criterion=[rng.random() < 0.4 for _ in range(4)] + [True] if "crit" in limit else None,
         init=rng.choice([None, "x0", "h0"]),
-        aux=rng.choice([None, "list", "dict", "list0"]),
+        aux=rng.choice([None, "list", "dict", "list0", "dict3", "list3"]),
         coeffs=[rng.choice([-1.0, -0.5, 0.25, 0.5, 1.0, 2.0]) for _ in range(4)],
         alpha=rng.choice([1, 1, 0.5]),
         shots=64,
@@ -816,7 +816,7 @@ def random_evqe_setup(rng, quick: bool = True, family: Optional[str] = None, pla
     setup["init_form"] = rng.choice(INIT_FORMS)
     if rich_assembly:
         setup["init"] = rng.choice(["h0", "ry"])
-        setup["aux"] = rng.choice(["list", "dict"])
+        setup["aux"] = rng.choice(["list", "dict", "dict3", "dict3", "list3"])
         setup["alpha"] = 1
         if setup["max_evals"] is not None:
             setup["max_evals"] = max(setup["max_evals"], 90)
@@ -843,7 +843,7 @@ def random_evqe_setup(rng, quick: bool = True, family: Optional[str] = None, pla
         setup["max_generations"] = rng.randint(1, 3)   # selection alone may report too few evaluations to hit a budget
     if setup["family"] == "package" or rng.random() < 0.4:
         setup["more"] = [dict(coeffs=[rng.choice([-2.0, -1.0, 0.5, 1.0, 1.5]) for _ in range(4)], init=rng.choice([None, "x0", "h0", "ry"]),
-                              init_form=rng.choice(INIT_FORMS), aux=rng.choice([None, "list", "dict"]))]
+                              init_form=rng.choice(INIT_FORMS), aux=rng.choice([None, "list", "dict", "dict3"]))]
     else:
         setup["more"] = []
     if big_population:
@@ -921,15 +921,17 @@ def evqe_problem(solver, setup: dict, problem: Optional[dict] = None):
         w = [c[i % len(c)] for i in range(n)]
         mkb = lambda shift: BitstringEvaluator(n, lambda b, _s=shift: float(sum(w[i] for i, ch in enumerate(b) if ch == "1") + _s))
         op = mkb(sum(abs(x) for x in w) + 0.5 if positive else 0.0)
-        auxes = [mkb(1.0), mkb(-2.0)]
+        auxes = [mkb(1.0), mkb(-2.0), mkb(7.5)]
     else:
         op = _hamiltonian(n, c)
         if positive:
             from qiskit.quantum_info import SparsePauliOp
 
             op = (op + SparsePauliOp.from_list([("I" * n, sum(abs(x) for x in c) + 0.5)])).simplify()
-        auxes = [_hamiltonian(n, c[1:] + c[:1]), _hamiltonian(n, [1.0, 0.0, 0.0])]
-    aux = {None: None, "list": auxes, "list0": [], "dict": {"first": auxes[0], "second": auxes[1]}}[p["aux"]]
+        auxes = [_hamiltonian(n, c[1:] + c[:1]), _hamiltonian(n, [1.0, 0.0, 0.0]), _hamiltonian(n, [-3.0, 0.5, 0.25])]   # first coefficient non-zero: on 1 qubit only that term exists
+    # pairwise different operators; "dict3": insertion order is NOT the sorted key order; "list3": three positions
+    aux = {None: None, "list": auxes[:2], "list0": [], "list3": auxes, "dict": {"first": auxes[0], "second": auxes[1]},
+           "dict3": {"z_last": auxes[0], "a_first": auxes[1], "m": auxes[2]}}[p["aux"]]
 
     def call():
         if setup["evaluator"] == "bitstring":
